@@ -92,7 +92,7 @@ def layouts(tokens):
     yield 'leading-trailing', '\n \t' + ' '.join(tokens) + '  \n\n# end'
 
 
-GAP_ALTS = ('\n', '\t  ', ' # c\n', '')
+GAP_ALTS = ('\n', '\t  ', ' # c\n', '# c\n', '')
 
 
 def gap_variants(tokens, pairs):
